@@ -80,6 +80,7 @@ type Specs struct {
 	InlinePkg []string
 	GlobalInvs []*SpecFn
 	Confined   []*confinedSpec
+	MapOrder   []*mapOrderSpec
 	Files     []string
 	NAssume   int
 }
@@ -87,7 +88,7 @@ type Specs struct {
 var clauseKw = map[string]bool{"requires": true, "ensures": true, "modifies": true, "invariant": true,
 	"decreases": true, "ghost": true, "property": true, "attr": true, "assume": true, "havoc": true, "axiom": true}
 
-var headRe = regexp.MustCompile(`^(func|functype|iface|extern|pred|fn|ghost|inlinepkg|opaque|modset|globalinv|confined)\b`)
+var headRe = regexp.MustCompile(`^(func|functype|iface|extern|pred|fn|ghost|inlinepkg|opaque|modset|globalinv|confined|maporder)\b`)
 
 func loadSpecs(root string, pkgDirs map[string]string) (*Specs, error) {
 	sp := &Specs{Funcs: map[string]*Contract{}, Loops: map[string][]*Contract{}, Closures: map[string][]*Contract{},
@@ -160,6 +161,15 @@ func (sp *Specs) parseFile(pkgPath, file string) error {
 				rest = strings.TrimSpace(rest[len(kw):])
 			}
 			switch kw {
+			case "maporder":
+				// maporder <func designator> <n> <reason...>
+				fs := strings.Fields(rest)
+				if len(fs) < 3 {
+					return fmt.Errorf("%s: bad maporder declaration", where)
+				}
+				var n int
+				fmt.Sscanf(fs[1], "%d", &n)
+				sp.MapOrder = append(sp.MapOrder, &mapOrderSpec{Pkg: pkgPath, Func: fs[0], N: n, Reason: strings.Join(fs[2:], " "), Where: where})
 			case "confined":
 				// confined Type.field writers f, g property Cxx
 				fs := strings.Fields(strings.ReplaceAll(rest, ",", " "))
